@@ -204,6 +204,9 @@ def run(ctx):
     tinfo = Obj('TableInfo', conditions=[], table=ident('t2'), index=1)
     probes = [
         ('t2.y IS NULL', binop('is', ident('t2.y', tinfo), const(None)), False),
+        # true for the NULLs an outer join adds: not null-rejecting either
+        ('t2.y IS NOT TRUE', binop('is not', ident('t2.y', tinfo), const(True)), False),
+        ('t2.y IS NOT FALSE', binop('IS NOT', ident('t2.y', tinfo), const(False)), False),
         ('t2.y = 1', binop('=', ident('t2.y', tinfo), const(1)), True),
         ('1 = t2.y', binop('=', const(1), ident('t2.y', tinfo)), True),
         ('t2.y = t1.x', binop('=', ident('t2.y', tinfo), ident('t1.x', tinfo)), False),
@@ -405,6 +408,8 @@ def run(ctx):
         seqs.append((f'T,T,J[{k}]', [T(), T(), J(k)]))
         seqs.append((f'T,S,J[{k}]', [T(), S(), J(k)]))
         seqs.append((f'T,M,J[{k}]', [T(), M(), J(k)]))
+        seqs.append((f'S,T,J[{k}]', [S(), T(), J(k)]))
+        seqs.append((f'S,M,J[{k}],T,J[LEFT JOIN]', [S(), M(), J(k), T(), J('LEFT JOIN')]))
         for k2 in ('LEFT JOIN', 'INNER JOIN'):
             seqs.append((f'T,T,J[{k}],T,J[{k2}]', [T(), T(), J(k), T(), J(k2)]))
             seqs.append((f'T,T,J[{k}],M,J[{k2}]', [T(), T(), J(k), M(), J(k2)]))
@@ -442,6 +447,14 @@ def run(ctx):
                 ctx.ob('C08.limit-gate', clause, False,
                        f'check_use_limit allows LIMIT to be moved into the fetch of the first table although {why} [{label}]', file=PJ,
                        line=fn['check_use_limit'].lineno, witness='select t1.a, count(*) from int1.t1 join int2.t2 on ... group by t1.a limit 3')
+        # the LIMIT goes into the fetch of the first plain table: it must be the first member of the join, not one that follows a sub-select (its rows would be cut
+        # on the right side of a join)
+        first_plain = next((i for i, x in enumerate(seq) if x.kind == 'TableInfo' and x.attrs.get('predictor_info') is None and x.attrs.get('sub_select') is None), None)
+        sub_before = first_plain is not None and any(x.kind == 'TableInfo' and x.attrs.get('sub_select') is not None for x in seq[:first_plain])
+        ctx.ob('C08.limit-gate', 'first-table-is-first-member', not sub_before,
+               f'check_use_limit allows LIMIT to be moved into the fetch of the first plain table although a sub-select stands before it in the join [{label}]: the table is '
+               f'the RIGHT side of a join there, and its first rows are not the rows the join needs', file=PJ, line=fn['check_use_limit'].lineno,
+               witness='select * from (select * from int2.s1) s left join int1.t1 a on a.id = s.id limit 3')
         # every join with a data table / sub-select on its right must keep all rows of the limited (left) side and no others: LEFT JOIN
         items = seq
         for i, itm in enumerate(items):
@@ -514,6 +527,10 @@ def run(ctx):
         ctx.ob('C08.limit-push', 'limit-needs-own-order', not (pushed and not ok_order),
                f'LIMIT is moved into the fetch although the query is ordered by columns of another table / an expression [{label}]', file=PJ,
                line=fn['process_table'].lineno)
+        ctx.ob('C08.limit-push', 'offset-moved-into-first-fetch', f.offset is None,
+               f'OFFSET is moved into the fetch of the first table [{label}]: there it skips rows of that table, the query skips rows of the JOIN result - a skipped row '
+               f'of the table with several partners (or with none under an inner join) shifts the window, so other rows come back', file=PJ,
+               line=fn['process_table'].lineno, witness='select * from int1.a left join int2.b on a.id = b.a_id order by a.id limit 2 offset 1   -- b has two rows for the first a')
         ctx.ob('C08.limit-push', 'offset-only-with-limit', not (f.offset is not None and not pushed), f'OFFSET is moved without LIMIT [{label}]', file=PJ,
                line=fn['process_table'].lineno)
         ctx.ob('C08.limit-push', 'offset-moved-not-copied', (f.offset is None) == (q.offset is not None or offset is None),
@@ -651,6 +668,56 @@ def run(ctx):
                f'with a CTE named `sales`, FROM {label} is planned as {got!r} but must be {want!r}: a CTE shadows only the unqualified name; a table of an '
                f'integration that happens to have the same name is a different table', file=QP, line=gis.lineno,
                witness='with sales as (select ...) select * from sales s join int1.sales t on ...')
+    # ---- api-type integration: which clauses go into the fetch and which stay outside ---------------------------------------------------------------
+    pads = function_named(qp, 'plan_api_db_select')
+    if pads is None:
+        ctx.note('QueryPlanner.plan_api_db_select not found: selects from api-type integrations are not split any more')
+    else:
+        for group_by, having, distinct, offset, tname, limit in itertools.product((None, 'set'), (None, 'set'), (False, True), (None, 1), ('columns', 'count(*)', 'window'), (None, 2)):
+            tgts = {'columns': [ident('x')], 'count(*)': [ident('x'), Obj('Function', op='count', args=[Obj('Star')], alias=None, distinct=False, from_arg=None, namespace=None)],
+                    'window': [Obj('WindowFunction', function=Obj('Function', op='row_number', args=[], alias=None, distinct=False, from_arg=None, namespace=None),
+                                   partition=None, order_by=None, alias=None, modifier=None)]}[tname]
+            q = select_ctor(None, targets=tgts, from_table=Obj('Identifier', parts=['api1', 't'], alias=None), where=cmp_('y'),
+                            group_by=[ident('x')] if group_by else None, having=cmp_('x') if having else None, distinct=distinct,
+                            offset=const(offset) if offset else None, limit=const(limit) if limit else None,
+                            order_by=[Obj('OrderBy', field=ident('x'), direction='default', nulls='default')])
+            fetched, outer = [], []
+            stubs = base_stubs()
+            stubs['self.plan_integration_select'] = lambda it, s_: (fetched.append(s_.clone()), Obj('FetchDataframeStep', result='R'))[1]
+            stubs['self.plan_sub_select'] = lambda it, s_, prev, **k: (outer.append(s_.clone()), Obj('SubSelectStep'))[1]
+            it = interp_for(stubs, file=QP)
+            it.isa.update({'Function': {'Operation'}, 'WindowFunction': set()})
+            label = f'group_by={group_by} having={having} distinct={distinct} offset={offset} targets={tname} limit={limit}'
+            try:
+                it.call_function(pads, [Obj('QueryPlanner'), q], {}, _env())
+            except Raised as r:
+                ctx.ob('C08.api-split', label, False, f'plan_api_db_select raises {r.exc_name} [{label}]', file=QP, line=pads.lineno)
+                continue
+            rows += 1
+            if len(fetched) != 1 or len(outer) != 1:
+                ctx.ob('C08.api-split', label, False, f'plan_api_db_select does not produce one fetch and one outer select [{label}]', file=QP, line=pads.lineno)
+                continue
+            f_, o_ = fetched[0], outer[0]
+            counts_fetched_rows = not (group_by or having or distinct or offset or tname != 'columns')
+            problems = []
+            if f_.limit is not None and not counts_fetched_rows:
+                problems.append('LIMIT is sent to the api although it counts groups / distinct rows / rows after OFFSET / the row of an aggregate, not fetched rows')
+            if limit and f_.limit is None and o_.limit is None:
+                problems.append('the LIMIT is lost')
+            if limit and f_.limit is not None and o_.limit is not None and offset:
+                problems.append('LIMIT is applied before and after OFFSET')
+            if f_.attrs.get('group_by') or f_.attrs.get('having') or f_.attrs.get('distinct') or f_.attrs.get('offset') is not None:
+                problems.append('GROUP BY / HAVING / DISTINCT / OFFSET is sent to the api')
+            for cl in ('group_by', 'having', 'offset'):
+                if (q.attrs.get(cl) is None) != (o_.attrs.get(cl) is None):
+                    problems.append(f'{cl} is not re-applied outside')
+            if bool(o_.attrs.get('distinct')) != bool(distinct):
+                problems.append('DISTINCT is not re-applied outside')
+            if (f_.where is None) == (o_.where is None):
+                problems.append('WHERE is applied twice or not at all')
+            ctx.ob('C08.api-split', label, not problems,
+                   f'[{label}] plan_api_db_select: {"; ".join(problems)}: the api returns other rows than the query counts', file=QP, line=pads.lineno,
+                   witness='select x, count(*) from api1.t group by x limit 2')
     # ---- set operations and the outer query of nested / api / native selects ----------------------------------------------------------------
     pu = function_named(qp, 'plan_union')
     pss = function_named(qp, 'plan_sub_select')
